@@ -566,7 +566,12 @@ func (sc *serverConn) writeFrame(wm frameWriteMsg) bool {
 	// process special frame
 	switch wm.frame.(type) {
 	case *PanicFrame:
-		sc.closeStream(wm.stream, errHandlerPanic)
+		// The stream may have been closed already (RST_STREAM from the peer,
+		// or a stream error) before the handler panicked: closing it a
+		// second time would panic on the serve goroutine.
+		if st := wm.stream; st != nil && st.state != stateClosed {
+			sc.closeStream(st, errHandlerPanic)
+		}
 		return true
 	case *FinFrame:
 		return false
